@@ -101,6 +101,54 @@ def tool@(qty@):
     amount@ = qty@ * 91
     return amount@ + 73
 '''),
+    ("srp", "py", '''class UserManager@:
+    def a@(self):
+        return "a@"
+
+    def b@(self):
+        return "b@"
+
+    def c@(self):
+        return "c@"
+
+    def d@(self):
+        return "d@"
+
+    def e@(self):
+        return "e@"
+
+    def f@(self):
+        return "f@"
+
+    def g@(self):
+        return "g@"
+
+    def h@(self):
+        return "h@"
+'''),
+    ("methodprop", "py", '''class Person@:
+    def __init__(self, first@, last@):
+        self._first@ = first@
+        self._last@ = last@
+
+    def get_name@(self):
+        return self._first@
+
+    def full_name@(self):
+        return self._first@ + self._last@
+'''),
+    ("lazy", "py", '''import os  # noqa
+import sys  # type: ignore
+
+
+def f@():  # pylint: disable=invalid-name
+    return os, sys
+'''),
+    ("cqs", "py", '''def process@(repo@, item@):
+    data@ = repo@.fetch(item@)
+    repo@.save(data@)
+    return data@
+'''),
     ("clean", "py", '''def ident@(x@):
     return x@
 '''),
@@ -138,7 +186,7 @@ def word(i: int) -> str:
     return "q" + s
 
 
-def build(n: int, cross: list[list[int]], layout: str = "flat") -> list[tuple[str, str]]:
+def build(n: int, cross: list[list[int]], layout: str = "flat", offset: int = 0) -> list[tuple[str, str]]:
     """Return [(relative path, content)] for files 1..n.
 
     layout "flat": unique base names in one directory; "samename": one directory per file, every
@@ -165,9 +213,36 @@ def build(n: int, cross: list[list[int]], layout: str = "flat") -> list[tuple[st
             else:
                 out.append((path(f, "str", "py"), stringly_member(f, g)))
             continue
-        name, ext, tmpl = PER_FILE[(f - 1) % len(PER_FILE)]
+        name, ext, tmpl = PER_FILE[(f - 1 + offset) % len(PER_FILE)]
         out.append((path(f, name, ext), tmpl.replace("@", word(f))))
     return out
 
 
 BASE_CONFIG = "dry:\n  enabled: true\n  min_duplicate_lines: 3\n"
+
+# per-language overrides chosen so that verdicts differ by language for the same probe
+OVERRIDES_CONFIG = BASE_CONFIG + """nesting:
+  max_nesting_depth: 9
+  python:
+    max_nesting_depth: 2
+  typescript:
+    max_nesting_depth: 9
+  rust:
+    max_nesting_depth: 1
+srp:
+  max_methods: 20
+  python:
+    max_methods: 3
+magic-numbers:
+  allowed_numbers: [0, 1, 2, 37]
+"""
+ALT_CONFIG = """dry:
+  enabled: true
+  min_duplicate_lines: 4
+nesting:
+  max_nesting_depth: 1
+magic-numbers:
+  allowed_numbers: [0, 1, 4200]
+"""
+CONFIGS = {"base": BASE_CONFIG, "overrides": OVERRIDES_CONFIG}
+EXPLICIT = {"empty.yaml": "# nothing configured\n", "empty.json": "{}\n", "alt.yaml": ALT_CONFIG}
